@@ -145,3 +145,56 @@ Proof.
       try apply (cc_of_kind_wf KA64Cdecl); try (right; split; [lia | discriminate]).
   - repeat split; try (right; reflexivity); vm_compute; congruence.
 Qed.
+
+(* ------------------------------------------------------------------ round 5: the frame conditions are not vacuous *)
+(* the Win64 frame above is in the scope of C07_frame_conditions_x86, rax (return value) and rcx (first argument) are outside the
+   saved set and differ from sp/bp/SA (the conclusions speak about them), rbx is inside the saved set (the conclusion does NOT
+   claim it unchanged: the epilog reloads it) *)
+Lemma ex_frame_conditions_x86_sat :
+  exists f, wf_in f /\ is_x86_family (fi_arch f) = true /\ x86_regs_exist f /\
+    Z.testbit (saved_regs f (finalize f) 0) 0 = false /\ Z.testbit (saved_regs f (finalize f) 0) 1 = false /\
+    Z.testbit (saved_regs f (finalize f) 0) 3 = true /\ Z.testbit (saved_regs f (finalize f) 1) 6 = true /\
+    Z.testbit (saved_regs f (finalize f) 1) 0 = false /\ fin_sa f <> 0 /\ fin_sa f <> 1.
+Proof.
+  exists ex_win64. split; [apply ex_win64_wf|]. split; [reflexivity|]. split; [apply ex_win64_regs|].
+  repeat split; vm_compute; congruence.
+Qed.
+
+(* the AAPCS64 frame above is in the scope of C07_frame_conditions_a64: x0 / d0 (argument, return value) are outside the saved
+   set, x19 / x29 / d8 inside, and the save area the prolog may write is not empty *)
+Lemma ex_frame_conditions_a64_sat :
+  exists f, wf_in f /\ fi_arch f = A64 /\ qget (cc_srsize (fi_cc f)) 1 = 8 /\ fin_has_da f = false /\ fi_sa_reg f = id_bad /\
+    fo_stack_adj (finalize f) <= 16777215 /\
+    Z.testbit (saved_regs f (finalize f) 0) 0 = false /\ Z.testbit (saved_regs f (finalize f) 1) 0 = false /\
+    Z.testbit (saved_regs f (finalize f) 0) 19 = true /\ Z.testbit (saved_regs f (finalize f) 0) 29 = true /\
+    Z.testbit (saved_regs f (finalize f) 1) 8 = true /\ 0 < fin_pp f.
+Proof.
+  exists ex_a64_ok. split.
+  - apply wf_in_mk; try reflexivity; try lia; try (left; reflexivity); try (right; exists 4; split; [lia | reflexivity]).
+  - repeat split; vm_compute; congruence.
+Qed.
+
+(* ------------------------------------------------------------------ round 5: accept/refuse decision of finalize *)
+Definition ex_too_large : frame_in :=
+  mk_frame X64 (K64Win false) false false false false (mkq 0 0 0 0) (2 ^ 31) 0 4096 0 id_bad 0.
+
+Lemma ex_finalize_error :
+  finalize_error ex_win64 = 0 /\ finalize_error ex_a64_ok = 0 /\ finalize_error ex_a64_align32 = 3 /\ finalize_error ex_too_large = 9 /\
+  wf_in ex_win64 /\ fi_local_align ex_win64 <= 128 /\ fi_call_align ex_win64 <= 128 /\ fi_arg_stack_size ex_win64 < 2 ^ 16.
+Proof.
+  split; [reflexivity|]. split; [reflexivity|]. split; [reflexivity|]. split; [reflexivity|]. split; [apply ex_win64_wf|].
+  split; [vm_compute; congruence|]. split; vm_compute; congruence.
+Qed.
+
+(* an accepted AArch64 frame whose stack adjustment (32 MiB of locals) is beyond two add/sub immediates *)
+Definition ex_a64_huge : frame_in :=
+  mk_frame A64 KA64Cdecl false false false false (mkq 0 0 0 0) (2 ^ 25) 16 0 0 id_bad 0.
+Lemma ex_a64_huge_sat : fi_arch ex_a64_huge = A64 /\ 16777215 < fo_stack_adj (finalize ex_a64_huge) /\ finalize_error ex_a64_huge = 0.
+Proof. split; [reflexivity|]. split; vm_compute; reflexivity. Qed.
+
+(* round 5: every way of addressing stack arguments occurs: sp-relative (no dynamic alignment), SA register (Win64 frame with
+   dynamic alignment: the SA register is not sp), frame pointer *)
+Lemma ex_stack_args_sat :
+  fo_sa_from_sp (finalize ex_x86_align8) <> -1 /\ fin_sa ex_win64 <> 4 /\ fo_sa_from_sp (finalize ex_win64) = -1 /\
+  fi_has_fp ex_a64_ok = true /\ fin_sa ex_a64_sa_fixed <> 31.
+Proof. repeat split; vm_compute; congruence. Qed.
